@@ -6,6 +6,7 @@ import (
 	"fmt"
 	"net"
 	"net/url"
+	"strconv"
 	"strings"
 	"sync"
 	"time"
@@ -25,7 +26,14 @@ func (d idDialer) DialURL(u *transport.URL) (net.Conn, error) {
 
 type idCtxDialer struct{ idDialer }
 
-func (d idCtxDialer) DialURLContext(_ context.Context, u *transport.URL) (net.Conn, error) {
+type c19CtxKey struct{}
+
+// a context-aware dialer records id+100 when the CALLER's context reached it (the marker value), id otherwise
+func (d idCtxDialer) DialURLContext(ctx context.Context, u *transport.URL) (net.Conn, error) {
+	if ctx.Value(c19CtxKey{}) == "marker" {
+		*d.hits = append(*d.hits, d.id+100)
+		return nil, errors.New("dialed")
+	}
 	return d.DialURL(u)
 }
 
@@ -263,16 +271,25 @@ func init() {
 			var hits []int
 			var toks, outs []string
 			last := map[string]int{}
+			lastCtx := map[string]bool{}
 			nops := 1 + c.Rng.Intn(12)
 			for j := 0; j < nops; j++ {
 				s := regSchemes[c.Rng.Intn(3)]
 				switch c.Rng.Intn(3) {
 				case 0:
 					id := 1 + c.Rng.Intn(9)
-					if c.Rng.Intn(2) == 0 {
+					switch c.Rng.Intn(3) {
+					case 0:
 						transport.RegisterDialer(s, idDialer{id, &hits})
-					} else {
+						lastCtx[s] = false
+					case 1:
 						transport.RegisterContextDialer(s, idCtxDialer{idDialer{id, &hits}})
+						lastCtx[s] = true
+					default:
+						// a context-aware dialer registered through the plain entry point (what the ax25 and telnet
+						// packages do in their init): it is still reached with the caller's context
+						transport.RegisterDialer(s, idCtxDialer{idDialer{id, &hits}})
+						lastCtx[s] = true
 					}
 					last[s] = id
 					toks = append(toks, fmt.Sprintf("r:%s:%d", hs(s), id))
@@ -282,7 +299,13 @@ func init() {
 					toks = append(toks, "u:"+hs(s))
 				default:
 					hits = hits[:0]
-					_, err := transport.DialURL(&transport.URL{Scheme: s, Target: "LA1B"})
+					var err error
+					withCtx := c.Rng.Intn(2) == 0
+					if withCtx {
+						_, err = transport.DialURLContext(context.WithValue(context.Background(), c19CtxKey{}, "marker"), &transport.URL{Scheme: s, Target: "LA1B"})
+					} else {
+						_, err = transport.DialURL(&transport.URL{Scheme: s, Target: "LA1B"})
+					}
 					got := "missing"
 					if err != transport.ErrMissingDialer {
 						if len(hits) == 1 {
@@ -294,11 +317,18 @@ func init() {
 					want := "missing"
 					if id, ok := last[s]; ok {
 						want = fmt.Sprint(id)
+						if withCtx && lastCtx[s] {
+							want = fmt.Sprint(id + 100) // reached through DialURLContext with the caller's context
+						}
 					}
 					if got != want {
-						c.Violate("C19:registry-dispatch", fmt.Sprintf("DialURL(%s) reached %s, want %s after history %v", s, got, want, toks), map[string]interface{}{"history": append([]string{}, toks...), "scheme": s})
+						c.Violate("C19:registry-dispatch", fmt.Sprintf("DialURL(%s) reached %s, want %s after history %v (ids above 100: the context-aware entry point with the caller's context)", s, got, want, toks), map[string]interface{}{"history": append([]string{}, toks...), "scheme": s})
 					}
-					outs = append(outs, got)
+					gotModel := got // the model knows dialers by their id only
+					if n, e := strconv.Atoi(got); e == nil && n > 100 {
+						gotModel = fmt.Sprint(n - 100)
+					}
+					outs = append(outs, gotModel)
 					toks = append(toks, "d:"+hs(s))
 				}
 			}
